@@ -10,6 +10,8 @@ use ssdeep::{DualFuzzyHash, FuzzyHash, LongDualFuzzyHash, LongFuzzyHash, LongRaw
 macro_rules! routes {
     ($name:ident, $raw:ty, $norm:ty, $dual:ty) => {
         fn $name(log: u8, bh1: &[u8], bh2: &[u8]) -> Result<bool, String> {
+            // a panic escaping from the library through any call below is a violation of this case, not a crash
+            guard_case(|| {
             let raw: $raw = guarded(|| <$raw>::new_from_internals_near_raw(log, bh1, bh2))?;
             let (n1, n2) = (refmodel::normalize(bh1), refmodel::normalize(bh2));
             let changed = n1 != bh1 || n2 != bh2;
@@ -112,6 +114,7 @@ macro_rules! routes {
                 return Err("dual.is_normalized() disagrees with the raw hash".into());
             }
             Ok(changed)
+            })
         }
     };
 }
